@@ -122,20 +122,58 @@ class Path:
         return p
 
 
-def is_closed(v):
-    """no reference to the state at the start of the path (start symbols, array contents)"""
+class Uninitialised(Unsupported):
+    """a path between two cut points reads a local name that nothing on any way to it has bound"""
+
+    def __init__(self, msg, name, path):
+        super().__init__(msg)
+        self.name, self.path = name, path
+
+
+def arr_id(o):
+    """an array value without its element type: size and ndim belong to the sequence, whatever it was converted to"""
+    if isinstance(o, tuple) and len(o) == 4 and o[0] == "obj" and o[1] == "asarray":
+        return o[:3]
+    return o
+
+
+F64_NAMES = ("float", "np.float64", "np.double", "numpy.float64", "numpy.double", "np.float_", "NPY_DOUBLE", "NPY_FLOAT64", "float64", "f8", "d", "double", "<f8", "=f8")
+
+
+def dtype_class(dt):
+    """'f64' | 'unspecified' | text of another element type, from a dtype value of the executor"""
+    if dt is None or dt == ("null",):
+        return "unspecified"
+    if dt[0] in ("sym", "var", "str"):
+        return "f64" if dt[1] in F64_NAMES else str(dt[1])
+    if dt[0] == "obj" and dt[1] == "descr" and len(dt) == 3:
+        return dtype_class(dt[2])
+    if dt[0] == "obj" and dt[1] == "dtype_of":
+        return "like:" + dt[2][1]
+    return show(dt)
+
+
+def is_closed(v, frozen=()):
+    """no reference to the state at the start of the path (start symbols, array contents); `frozen`: names that keep one value for the whole
+    run of the function (parameters that are never assigned), which may occur"""
     if isinstance(v, tuple):
-        if v and v[0] in ("var", "sel", "aff", "unknown"):
+        if v and v[0] == "var":
+            return v[1] in frozen
+        if v and v[0] == "aff":
+            return all(n in frozen for n, _ in v[1])
+        if v and v[0] in ("sel", "unknown"):
             return False
-        return all(is_closed(x) for x in v)
+        return all(is_closed(x, frozen) for x in v)
     return True
 
 
+FREE_NAMES = ("free", "PyMem_Free", "PyMem_RawFree")
 NP_ALLOC = ("np.empty", "np.zeros", "numpy.empty", "numpy.zeros")
+NP_LIKE = ("np.empty_like", "np.zeros_like", "numpy.empty_like", "numpy.zeros_like")
 
 
 class Exec:
-    def __init__(self, unit, fname, mode="kernel", param_kinds=None, int_names=None, label=None):
+    def __init__(self, unit, fname, mode="kernel", param_kinds=None, int_names=None, label=None, array_len=None):
         self.unit = unit
         self.f = unit.func(fname)
         self.mode = mode
@@ -157,6 +195,10 @@ class Exec:
         self.loops = R.loops_of(self.f.body)
         self.ncall = 0
         self.opaque = set()        # functions of the unit that are NOT followed (entry mode: the kernels)
+        self.fn_names = set(getattr(self.f, "locals", ())) | {p[0] for p in self.f.params}
+        self.frozen = {p[0] for p in self.f.params} - R.assigned_vars(self.f.body)     # parameters that keep their value throughout
+        self.lengths = {}          # array base -> Aff: its number of elements (allocations; the input array when `array_len` names the length parameter)
+        self.array_len = dict(array_len or {})
         self.limit = 4000
         self.steps = 0
 
@@ -262,6 +304,13 @@ class Exec:
                 return ("ptr", a[1], aff_ir(off + d if op == "+" else off - d))
             if b[0] == "ptr" and op == "+" and self.is_int(a):
                 return self.simp(("bin", "+", b, a))
+            if a[0] == "ptr" and b[0] == "ptr" and op == "-":
+                if a[1] != b[1]:
+                    raise Unsupported("difference of two pointers into different arrays")
+                oa, ob = self.aff(a[2]), self.aff(b[2])
+                if oa is None or ob is None:
+                    raise Unsupported("pointer difference with a non-affine offset")
+                return aff_ir(oa - ob)          # the number of elements between two pointers into one array
             if op == "/" and b[0] == "num" and b[1] != 0 and not self.is_int(a):
                 q = b[1]
                 if q > 0 and _is_pow2(q):
@@ -297,6 +346,8 @@ class Exec:
             c = self._module_const(nm)
             if c is not None:
                 return c
+            if isinstance(self.unit, R.PyUnit) and nm not in self.fn_names and nm not in self.unit.module_names and "$" not in nm and not nm.startswith("%"):
+                raise Uninitialised(f"{self.label}: `{nm}` is read but bound nowhere (not a local, not a module-level name, not a builtin)", nm, f"from {p.src}")
             return ("var", nm)
         if k == "idx":
             b = self.ev(e[1], p)
@@ -374,13 +425,28 @@ class Exec:
         return None
 
     def attr(self, o, name):
+        if name == "dtype" and o[0] == "ptr" and o[2] == ZERO:
+            return ("obj", "dtype_of", ("str", o[1]))
+        if name == "dtype" and o[0] == "obj" and o[1] == "asarray":
+            return o[3]
+        if name in ("size", "shape") and o[0] == "ptr" and o[2] == ZERO and self.lengths.get(o[1]) is not None and self.allocs.get(o[1], {}).get("kind") != "out":
+            n = aff_ir(self.lengths[o[1]])
+            return n if name == "size" else ("obj", "tuple", n)
         if self.mode != "entry":
             raise Unsupported(f"attribute .{name}")
+        o = arr_id(o)
         if name in ("size", "ndim"):
             return ("opq", name, (o,), "int")
         if name == "shape":
             return ("obj", "shape", o)
         return ("opq", "." + name, (o,), "any")
+
+    def _asarray(self, x, dt=None):
+        """the array made of x; element type dt (a dtype value) when the call converts, else whatever x has.  ('obj', 'asarray', x, dtype | null)"""
+        inner = ("null",)
+        if x[0] == "obj" and x[1] == "asarray":
+            x, inner = x[2], x[3]
+        return ("obj", "asarray", x, dt if dt is not None and dt != ("null",) else inner)
 
     def _flat(self, b, r, c):
         if b[0] != "ptr" or b[1] not in self.allocs or not self.allocs[b[1]].get("cols"):
@@ -411,6 +477,11 @@ class Exec:
             if i == ZERO:
                 return ("opq", "size", (b[2],), "int")       # shape[0] of a vector is its size (the caller tests ndim == 1)
             raise Unsupported("shape[i], i != 0")
+        if b[0] == "addrof":
+            # *p where p == &v: the caller's variable (a counter or cursor passed to a helper by reference)
+            if i != ZERO:
+                raise Unsupported(f"(&{b[1]})[{show(i)}]")
+            return self.ev(("var", b[1]), p)
         a = self._index(b, i)
         base = b[1]
         info = self.allocs.get(base)
@@ -462,8 +533,42 @@ class Exec:
         raise Unsupported(f"call of {name}")
 
     def model_call(self, name, args, kw, p):
-        if name in ("fabs", "abs") and len(args) == 1:
+        if name in ("fabs", "abs", "math.fabs", "np.abs", "np.fabs", "np.absolute", "numpy.abs", "numpy.fabs", "numpy.absolute") and len(args) == 1 and not kw:
             return self.simp(("abs", args[0]))
+        if name in ("memcpy", "memmove") and len(args) == 3 and args[0][0] == "ptr" and args[1][0] == "ptr":
+            n = args[2]
+            cnt = None
+            if n[0] == "bin" and n[1] == "*":
+                x, y = (n[2], n[3]) if n[3][0] == "sizeof" else (n[3], n[2])
+                if y[0] == "sizeof" and x[0] == "num" and x[1].denominator == 1 and 1 <= x[1] <= 16:
+                    cnt = int(x[1])
+            elif n[0] == "sizeof":
+                cnt = 1
+            if cnt is None:
+                raise Unsupported(f"{name} of a size that is not <constant> * sizeof(element)")
+            vals = [self.load(args[1], ("num", Fraction(i)), p) for i in range(cnt)]        # all reads first: memmove semantics
+            for i, v in enumerate(vals):
+                self.store(args[0], ("num", Fraction(i)), v, p)
+            return args[0]
+        if name in ("PyMem_Calloc", "PyMem_RawCalloc") and len(args) == 2:
+            name = "calloc"
+        if name in ("PyMem_Malloc", "PyMem_RawMalloc") and len(args) == 1:
+            name = "malloc"
+        if name in FREE_NAMES and len(args) == 1:
+            name = "free"
+        if name in ("PyArray_Empty", "PyArray_Zeros") and len(args) == 4:
+            nd, dims, descr = args[0], args[1], args[2]
+            if nd != ("num", Fraction(2)) or dims[0] != "ptr":
+                raise Unsupported(f"{name}: only 2-d arrays with a local dims[] are modelled")
+            rows = self.load(dims, ZERO, p)
+            cols = self.load(dims, ("num", Fraction(1)), p)
+            p.acc = [a for a in p.acc if a[0] != dims[1]]
+            if cols[0] != "num":
+                raise Unsupported(f"{name}: column count is not a constant")
+            typ = descr[2] if descr[0] == "obj" and descr[1] == "descr" and len(descr) == 3 else descr
+            return ("alloc", "out", self._need_int(rows, "row count"), int(cols[1]), typ[1] if typ[0] == "sym" else show(typ))
+        if name == "PyArray_DescrFromType" and len(args) == 1:
+            return ("obj", "descr", args[0])
         if name == "calloc" and len(args) == 2:
             return ("alloc", "work", self._need_int(args[0], "calloc count"), None, args[1][1] if args[1][0] == "sizeof" else None)
         if name == "malloc" and len(args) == 1 and args[0][0] == "bin" and args[0][1] == "*":
@@ -472,10 +577,18 @@ class Exec:
                 x, y = y, x
             if y[0] == "sizeof":
                 return ("alloc", "work", self._need_int(x, "malloc count"), None, y[1])
+        if name in NP_LIKE and (args or "prototype" in kw or "a" in kw):
+            src = args[0] if args else kw.get("prototype", kw.get("a"))
+            dt = args[1] if len(args) > 1 else kw.get("dtype")
+            if not (src[0] == "ptr" and src[2] == ZERO and self.lengths.get(src[1]) is not None) or self.allocs.get(src[1], {}).get("kind") == "out" \
+                    or set(kw) - {"dtype", "prototype", "a"} or len(args) > 2:
+                raise Unsupported(f"{name}({show(src)}): only a whole 1-d array of known length is modelled")
+            dts = ("like:" + src[1]) if dt is None or dt == ("null",) else self._dtype_text(dt)
+            return ("alloc", "work", aff_ir(self.lengths[src[1]]), None, dts)
         if name in NP_ALLOC:
             shape = args[0] if args else kw.get("shape")
             dt = args[1] if len(args) > 1 else kw.get("dtype")
-            dts = dt[1] if dt is not None and dt[0] in ("sym", "var", "str") else (None if dt is None else show(dt))
+            dts = self._dtype_text(dt)
             if shape is None:
                 raise Unsupported(f"{name} without a shape")
             if shape[0] == "obj" and shape[1] == "tuple":
@@ -496,6 +609,8 @@ class Exec:
             if cols[0] != "num":
                 raise Unsupported("PyArray_SimpleNew: column count is not a constant")
             return ("alloc", "out", self._need_int(rows, "row count"), int(cols[1]), typ[1] if typ[0] == "sym" else show(typ))
+        if name == "len" and len(args) == 1 and args[0][0] == "ptr" and args[0][2] == ZERO and self.lengths.get(args[0][1]) is not None:
+            return aff_ir(self.lengths[args[0][1]])
         if name in ("PyArray_DATA", "PyArray_BYTES") and len(args) == 1:
             return args[0]
         if name == "free" and len(args) == 1:
@@ -518,9 +633,13 @@ class Exec:
             else:
                 raise Unsupported(f"{name}({show(a)})")
             return ("null",)
-        if name in ("Py_INCREF", "Py_XINCREF") and len(args) == 1:
-            p.events.append(("incref", show(args[0])))
-            return ("null",)
+        if name in ("Py_INCREF", "Py_XINCREF", "Py_NewRef", "Py_XNewRef") and len(args) == 1:
+            p.events.append(self._incref(args[0]))
+            return args[0] if name.endswith("NewRef") else ("null",)
+        if name == "PyTuple_Pack" and args and args[0][0] == "num" and args[0][1] == len(args) - 1:
+            for a in args[1:]:                      # the tuple takes its own reference to every item
+                p.events.append(self._incref(a))
+            return ("obj", "tuple") + tuple(args[1:])
         if name in ("PyLong_FromSsize_t", "PyLong_FromLong", "PyLong_FromLongLong", "PyLong_FromSize_t") and len(args) == 1:
             return ("obj", "pylong", self._need_int(args[0], name))
         if name == "PySlice_New" and len(args) == 3:
@@ -535,14 +654,29 @@ class Exec:
         if name == "Py_BuildValue" and args and args[0][0] == "str":
             f = args[0][1]
             if set(f) <= set("NO") and len(f) == len(args) - 1:
-                if "O" in f:
-                    for a in args[1:]:
-                        p.events.append(("incref", show(a)))
+                for ch, a in zip(f, args[1:]):
+                    if ch == "O":
+                        p.events.append(self._incref(a))
                 return args[1] if len(f) == 1 else ("obj", "tuple") + tuple(args[1:])
             raise Unsupported(f"Py_BuildValue format {f!r}")
         if self.mode == "entry":
             return self.entry_call(name, args, kw, p)
         return NotImplemented
+
+    @staticmethod
+    def _dtype_text(dt):
+        """None (numpy's default, float64) | the name the source gives | 'like:<array>' for the element type of another array"""
+        if dt is None or dt == ("null",):
+            return None
+        if dt[0] in ("sym", "var", "str"):
+            return dt[1]
+        if dt[0] == "obj" and dt[1] == "dtype_of":
+            return "like:" + dt[2][1]
+        return show(dt)
+
+    @staticmethod
+    def _incref(a):
+        return ("incref", a[1] if a[0] == "ptr" else show(a))
 
     def entry_call(self, name, args, kw, p):
         if name == "PyArg_ParseTupleAndKeywords" and len(args) >= 4:
@@ -567,22 +701,39 @@ class Exec:
                 else:
                     p.env[o[1]] = ("opq", "arg", (("num", Fraction(i)),), "any")
             return ("num", Fraction(1))
-        if name in ("PyArray_FromAny", "PyArray_FROM_OTF", "PyArray_FROM_OF", "PyArray_ContiguousFromAny", "PyArray_CheckFromAny") and args:
-            return ("obj", "asarray", args[0])
-        if name in ("np.atleast_1d", "np.asarray", "np.ascontiguousarray", "np.asanyarray") and args:
-            return ("obj", "asarray", args[0])
+        if name in ("PyArray_FromAny", "PyArray_CheckFromAny") and args:
+            return self._asarray(args[0], args[1] if len(args) > 1 else None)          # (op, descr, ...): PyArray_FROM_OTF and friends expand to this
+        if name in ("PyArray_FROM_OTF", "PyArray_FROM_OF", "PyArray_ContiguousFromAny") and args:
+            return self._asarray(args[0], ("obj", "descr", args[1]) if name != "PyArray_FROM_OF" and len(args) > 1 else None)
+        if name in ("np.atleast_1d", "np.asarray", "np.ascontiguousarray", "np.asanyarray", "np.array", "np.asfarray") and args:
+            dt = kw.get("dtype", args[1] if len(args) > 1 and name != "np.atleast_1d" else None)
+            if name == "np.asfarray" and dt is None:
+                dt = ("sym", "np.float64")
+            return self._asarray(args[0], dt)
+        if name == "method:astype" and args and args[0][0] == "obj" and args[0][1] == "asarray":
+            dt = args[1] if len(args) > 1 else kw.get("dtype")
+            if dt is None:
+                raise Unsupported("astype without a dtype")
+            return self._asarray(args[0], dt)
         if name == "PyArray_DescrFromType":
             return ("obj", "descr") + tuple(args)
         if name == "PyArray_NDIM" and len(args) == 1:
-            return ("opq", "ndim", (args[0],), "int")
+            return ("opq", "ndim", (arr_id(args[0]),), "int")
         if name == "PyArray_DIM" and len(args) == 2 and args[1] == ZERO:
-            return ("opq", "size", (args[0],), "int")
+            return ("opq", "size", (arr_id(args[0]),), "int")
         if name in ("PyArray_DIMS", "PyArray_SHAPE") and len(args) == 1:
-            return ("obj", "shape", args[0])
-        if name == "PyArray_SIZE" and len(args) == 1:
-            return ("opq", "size", (args[0],), "int")
+            return ("obj", "shape", arr_id(args[0]))
+        if name in ("PyArray_SIZE", "PyArray_Size", "np.size") and len(args) == 1:
+            return ("opq", "size", (arr_id(args[0]),), "int")
+        if name == "PyArray_MultiplyList" and len(args) == 2 and args[0][0] == "obj" and args[0][1] == "shape" \
+                and args[1] == ("opq", "ndim", (args[0][2],), "int"):
+            return ("opq", "size", (args[0][2],), "int")         # what the macro PyArray_SIZE(a) expands to
+        if name == "np.ndim" and len(args) == 1:
+            return ("opq", "ndim", (arr_id(args[0]),), "int")
+        if name == "np.shape" and len(args) == 1:
+            return ("obj", "shape", arr_id(args[0]))
         if name == "len" and len(args) == 1:
-            return ("opq", "size", (args[0],), "int")
+            return ("opq", "size", (arr_id(args[0]),), "int")
         if name.startswith("op:"):
             if len(args) == 2 and all(a[0] == "num" and a[1].denominator == 1 for a in args):
                 x, y = int(args[0][1]), int(args[1][1])
@@ -728,6 +879,8 @@ class Exec:
                 _, kind, n, cols, dt = v
                 na = self.aff(n)
                 self.allocs[base] = dict(kind=kind, rows=na, cols=cols, n=na.scale(cols) if cols else na, dtype=dt, order=len(self.allocs))
+                if not cols:
+                    self.lengths[base] = na
                 p.events.append(("alloc", base))
                 v = ("ptr", base, ZERO)
             p.env[lv[1]] = v
@@ -735,6 +888,11 @@ class Exec:
         if v[0] == "alloc":
             raise Unsupported("allocation stored into an array element")
         b = self.ev(lv[1], p)
+        if lv[0] == "idx" and b[0] == "addrof":
+            if self.ev(lv[2], p) != ZERO:
+                raise Unsupported(f"store to (&{b[1]})[i], i != 0")
+            p.env[b[1]] = v
+            return
         if lv[0] == "idx":
             if b[0] == "var" and lv[1][0] == "var":
                 # a local C array (`npy_intp dims[2]`): its own little memory
@@ -770,10 +928,24 @@ class Exec:
             op, a, b = v[1], v[2], v[3]
             na, nb = a[0] in ("null",), b[0] in ("null",)
             pa, pb = a[0] in ("ptr", "obj", "str"), b[0] in ("ptr", "obj", "str")
+            if a[0] == "ptr" and b[0] == "ptr" and a[1] == b[1]:
+                # two pointers into the same array compare like their offsets
+                oa, ob = self.aff(a[2]), self.aff(b[2])
+                if oa is None or ob is None:
+                    raise Unsupported("comparison of two pointers with non-affine offsets")
+                d = oa - ob
+                if op == "==":
+                    return self.fork_int(p, ("ieq", d), kt, kf)
+                if op == "!=":
+                    return self.fork_int(p, ("ieq", d), kf, kt)
+                if op == "<":
+                    return self.fork_int(p, ("ige", -d - 1), kt, kf)
+                if op == "<=":
+                    return self.fork_int(p, ("ige", -d), kt, kf)
             if (na or pa) and (nb or pb):
                 eq = (na and nb) or (pa and pb and a == b)
                 if pa and pb and a != b:
-                    raise Unsupported("comparison of two pointers")
+                    raise Unsupported("comparison of two pointers into different objects")
                 res = eq if op == "==" else (not eq if op == "!=" else None)
                 if res is None:
                     raise Unsupported("ordering of pointers")
@@ -882,7 +1054,8 @@ class Exec:
 
         def from_head(q):
             def after_body(r):
-                return self.block(s[3], r, dict(K, fall=lambda z: self.arrive(node, s, z, from_head), brk=None, cont=None))
+                # the step section may leave the loop (`do { } while (c)` is lowered as  loop: body; step: if not c: break)
+                return self.block(s[3], r, dict(K, fall=lambda z: self.arrive(node, s, z, from_head), brk=nxt, cont=None))
             Kb = dict(K, fall=after_body, brk=nxt, cont=after_body)
             if s[1] is None:
                 return self.block(s[2], q, Kb)
@@ -916,6 +1089,8 @@ class Exec:
                 t[v] = ("const", val)
             elif is_closed(val) and v not in assigned:
                 t[v] = ("const", val)
+            elif val[0] == "ptr" and v not in assigned and v not in self.frozen and is_closed(val, self.frozen):
+                t[v] = ("const", val)           # `end = base + L` kept for the loop test: a fixed place in the array, not a cursor
             elif val[0] == "ptr":
                 t[v] = ("ptr", val[1])
                 self.ints.add(v)
@@ -949,6 +1124,8 @@ class Exec:
                 base = f"param:{nm}"
                 self.allocs[base] = dict(kind="input", rows=None, cols=None, n=None, dtype=None, order=-1)
                 p.env[nm] = ("ptr", base, ZERO)
+                if i in self.array_len:
+                    self.lengths[base] = V(self.f.params[self.array_len[i]][0])
             elif kind == "int":
                 self.ints.add(nm)
                 p.env[nm] = ("var", nm)
@@ -1211,7 +1388,9 @@ def build_ts(ex):
     ts.phase[EPI] = 98
     for n in (END, RAISE, FAIL):
         ts.phase[n] = 99
-    ts.nodes = [n for n in ex.node_order]
+    # cut points in source order (the order of discovery depends on which arm of a test is followed first, e.g. `p != end` vs `k < L`)
+    rank = {START: -1, EPI: 10 ** 6}
+    ts.nodes = sorted(ex.node_order, key=lambda n: rank[n] if n in rank else int(n[1:]) if n[:1] == "H" and n[1:].isdigit() else 10 ** 5)
     for n in ts.nodes:
         if n not in ts.phase:
             raise Unsupported(f"cut point {n} without a phase")
@@ -1251,7 +1430,7 @@ def build_ts(ex):
             free_vars(v, fv)
         bad = sorted(x for x in fv - ok)
         if bad:
-            raise Unsupported(f"{t['src']} -> {t['dst']}: `{bad[0]}` is read before it is assigned")
+            raise Uninitialised(f"{ex.label}: {t['src']} -> {t['dst']}: `{bad[0]}` is read before it is assigned", bad[0], f"{t['src']} -> {t['dst']}")
     return ts
 
 
@@ -1575,6 +1754,51 @@ def merge_equal(ts):
                 ts.state[n].pop(v, None)
         for v, r in sorted(mp.items()):
             ts.notes.append(f"{v} == {r[1]} (proved by induction), merged")
+    # a counter that lives at fewer cut points than the one it copies (a second cursor `iend` that moves in step with `end` but is not needed
+    # in the last loop): v == r wherever v is live, by induction over the transitions that arrive where v is live
+    for _ in range(6):
+        ivars = ts.int_vars()
+        presence = {v: {n for n in ts.nodes if v in ts.state.get(n, {})} for v in ivars}
+        found = None
+        for v in ivars:
+            for r in ivars:
+                if r == v or not presence[v] < presence[r]:
+                    continue
+                hyp = {v: ("var", r)}
+                ok = True
+                for t in ts.trans:
+                    if v not in ts.state[t["dst"]]:
+                        continue
+                    if v not in ts.state[t["src"]] and v not in t["scal"]:
+                        ok = False
+                        break
+                    try:
+                        a = subst_vars(t["scal"].get(v, ("var", v)), hyp, ex)
+                        b = subst_vars(t["scal"].get(r, ("var", r)), hyp, ex)
+                    except Unsupported:
+                        ok = False
+                        break
+                    if a != b:
+                        ok = False
+                        break
+                if ok:
+                    found = (v, r)
+                    break
+            if found:
+                break
+        if not found:
+            break
+        v, r = found
+        hyp = {v: ("var", r)}
+        out = []
+        for t in ts.trans:
+            t2 = map_trans(t, lambda x: subst_vars(x, hyp, ex), ts) if v in ts.state[t["src"]] else dict(t)
+            t2["scal"] = {w: x for w, x in t2["scal"].items() if w != v}
+            out.append(t2)
+        ts.trans = out
+        for n in ts.state:
+            ts.state[n].pop(v, None)
+        ts.notes.append(f"{v} == {r} wherever {v} is live (proved by induction), merged")
     return ts
 
 
